@@ -674,8 +674,14 @@ fn main() {
         eprintln!("usage: lsv-harness replay <script.ndjson> <trace.ndjson>");
         std::process::exit(2);
     }
-    // panics are data: keep them off stderr
-    panic::set_hook(Box::new(|_| {}));
+    // panics are data: keep them off stderr - except the one kind that cannot be caught: the standard library's debug
+    // precondition on an unchecked access aborts the process, and its message is the only record of why
+    panic::set_hook(Box::new(|info| {
+        let msg = info.to_string();
+        if msg.contains("unsafe precondition") {
+            eprintln!("{}", msg);
+        }
+    }));
     let input = BufReader::new(File::open(&args[2]).expect("open script"));
     let mut out = BufWriter::new(File::create(&args[3]).expect("create trace"));
 
